@@ -274,7 +274,16 @@ func runC01(c *sim.Ctx) {
 
 	// (a) stream writer -> Sink
 	sink := sim.NewSink(c, "w")
-	dw := bufiox.NewDefaultWriter(sink)
+	var dw bufiox.Writer
+	var target []byte
+	bytesBacked := st.Chance(1, 5)
+	if bytesBacked {
+		// bytes-backed writer: a single flush at the end publishes the slice
+		dw = bufiox.NewBytesWriter(&target)
+		c.Count("cfg.writer.bytes")
+	} else {
+		dw = bufiox.NewDefaultWriter(sink)
+	}
 	bw := thrift.NewBufferWriter(dw)
 	flushed := 0
 	for i, it := range items {
@@ -290,7 +299,7 @@ func runC01(c *sim.Ctx) {
 			c.NonTriv = true
 		}
 		c.Abs(0x100000 | uint32(it.kind)<<8 | sizeBucket(len(it.enc)))
-		if st.Chance(1, 6) {
+		if !bytesBacked && st.Chance(1, 6) {
 			c.GuardNoOOM("Flush/DefaultWriter", func() { err = dw.Flush() })
 			if err != nil {
 				c.Fail("WRITE_ERROR", "Flush/DefaultWriter", sim.F{}, "flush: %v", err)
@@ -308,6 +317,9 @@ func runC01(c *sim.Ctx) {
 		c.Fail("WRITE_ERROR", "Flush/DefaultWriter", sim.F{}, "flush: %v", err)
 	}
 	bw.Recycle()
+	if bytesBacked {
+		sink.Got = target
+	}
 	if d := firstDiff(sink.Got, enc); d >= 0 {
 		// locate the item
 		off, which := 0, -1
@@ -329,7 +341,15 @@ func runC01(c *sim.Ctx) {
 	// (b) Source -> stream reader
 	scfg := sim.RandomSourceCfg(cfg, len(enc))
 	src := sim.NewSource(c, "r", enc, scfg)
-	dr := bufiox.NewDefaultReader(src)
+	var dr bufiox.Reader
+	if st.Chance(1, 5) {
+		flat := make([]byte, len(enc), len(enc)+st.Choose(3)*33)
+		copy(flat, enc)
+		dr = bufiox.NewBytesReader(flat)
+		c.Count("cfg.reader.bytes")
+	} else {
+		dr = bufiox.NewDefaultReader(src)
+	}
 	br := thrift.NewBufferReader(dr)
 	c.Tracef("cfg  reading back: %s", scfg.String())
 	for i, it := range items {
